@@ -249,6 +249,23 @@ func (Prop) Finish(p *vp.Parent) {
 			}
 		}
 	}
+	judged := map[string]bool{}
+	var enumerated []string
+	for _, r := range p.Results["gate"] {
+		for k, v := range r.Outputs {
+			if strings.HasPrefix(k, "gate/") {
+				judged[strings.TrimPrefix(k, "gate/")] = true
+			}
+			if k == "functions" {
+				enumerated = strings.Split(v, "\n")
+			}
+		}
+	}
+	for _, name := range enumerated {
+		if !judged[name] {
+			p.Inconclusive("no gate verdict for "+name+" (its batch died)", 1)
+		}
+	}
 	var keys []string
 	for k := range byset {
 		keys = append(keys, k)
